@@ -149,7 +149,8 @@ def _recon(ctx) -> None:
     dm, tm, dam = pmod("datetime"), pmod("time"), pmod("date")
     sites = recon.sites_in(dm, ["DateTime.date", "DateTime.time", "DateTime.int_timestamp", "DateTime.naive"]) \
         + recon.sites_in(tm, ["Time.replace", "Time.instance"]) \
-        + recon.sites_in(dam, ["Date.today", "Date.fromtimestamp", "Date.fromordinal"])
+        + recon.sites_in(dam, ["Date.today", "Date.fromtimestamp", "Date.fromordinal"]) \
+        + recon.sites_in(pmod("interval"), ["Interval.__new__"])       # subtraction of datetimes
     for s in sites:
         recon.check_site(ctx, s)
     ctx.count("recon_sites", len(sites))
@@ -193,6 +194,8 @@ def run(ctx) -> None:
     _replace(ctx)
     _recon(ctx)
     _eq_hash_str(ctx)
+    from . import C04
+    C04._siblings(ctx, pmod("date"), "Date", "_add_timedelta", "_subtract_timedelta", ["years", "months", "weeks", "days"])   # Date +/- timedelta like the native date
     ctx.expect_min("OVERRIDE.inventory", 26)
     ctx.expect_min("OVERRIDE.returns", 30)
     ctx.expect_min("REPLACE", 10)
